@@ -279,6 +279,12 @@ var ops = []cop{
 		p, _ := ref.EncodeToCurveNU(bytes.Repeat([]byte("B"), 257), []byte("verif/C20 message"))
 		return p.Uncompressed()
 	}},
+	{"PreHashSchnorrMessage(tag A)", false, func(e *env) []byte {
+		return errOr(bitcoin.PreHashSchnorrMessage("verif/C20 tag A", e.msg))
+	}, func(e *env) []byte { return ref.TaggedHash("verif/C20 tag A", []byte("verif/C20 message")) }},
+	{"PreHashSchnorrMessage(tag B)", false, func(e *env) []byte {
+		return errOr(bitcoin.PreHashSchnorrMessage("verif/C20 another tag B", e.msg))
+	}, func(e *env) []byte { return ref.TaggedHash("verif/C20 another tag B", []byte("verif/C20 message")) }},
 	{"NewPrivateKey(bytes) (fresh object, shared tables)", true, func(e *env) []byte {
 		k, err := secec.NewPrivateKey(ref.B32(e.s1))
 		if err != nil {
